@@ -44,18 +44,33 @@ package reorgdetector
 //@ extern (*github.com/ethereum/go-ethereum/core/types.Header).Hash@reorgdetector.(*ReorgDetector).detectReorgInTrackedList$1 (h)
 //@   modifies nothing
 //@   ensures result == hdrHashOf(h)
+// the header the node's client returns for a block number during one pass (snapshot of the chain as the pass sees it)
+//@ spec fn chainHdrAt(n int) *types.Header
+// the tracked blocks one pass looked at, in the order it looked at them (ghost copy of the pass's sorted list)
+//@ ghost var passHdrs []header
+//@ ghost var passLen int
+//@ interface github.com/agglayer/aggkit/types.BaseEthereumClienter.HeaderByNumber@reorgdetector.(*ReorgDetector).detectReorgInTrackedList$1 (self, ctx, number)
+//@   modifies nothing
+//@   ensures result1 != nil ==> result0 == nil
+//@   ensures result1 == nil ==> result0 != nil && result0 == chainHdrAt(bigval(number))
 //@ func (rd *ReorgDetector) detectReorgInTrackedList$1
 //@   props C06
 //@   requires rd != nil && rd.client != nil && rd.log != nil && hdrs != nil && lastFinalisedBlock != nil && lastFinalisedBlock.Number != nil && 0 <= bigval(lastFinalisedBlock.Number) && bigval(lastFinalisedBlock.Number) < 18446744073709551616
 //@   requires notifyCalls == 0 && headersCache != nil
-//@   modifies heap, notifyCalls, lastNotified, lastDropFrom, lastDropTo, dropCalls
+//@   requires forall(n, int, headersCache[n] != nil ==> headersCache[n] == chainHdrAt(n))
+//@   modifies heap, notifyCalls, lastNotified, lastDropFrom, lastDropTo, dropCalls, passHdrs, passLen
 // detection proper: a subscriber is notified exactly for a tracked block whose stored hash differs from the hash of
 // the header the pass holds for that number, and a single row is dropped on its own only for a block whose hash still
 // matches and that is at or below the finalized block
 //@   assert call:notifySubscriber hdr.Hash != hdrHashOf(currentHeader)
 //@   assert call:removeTrackedBlockRange:0 hdr.Hash == hdrHashOf(currentHeader) && arg2 == hdr.Num && arg3 == hdr.Num
 //@   ensures[at-most-one-reorg-per-pass] notifyCalls <= 1
+//@   choose passHdrs with passHdrs == seq(headers)
+//@   choose passLen with passLen == len(headers)
+//@   ensures[a-clean-pass-compared-every-tracked-block] (result == nil && notifyCalls == 0) ==> forall(k, 0, passLen, passHdrs[k].Hash == hdrHashOf(chainHdrAt(passHdrs[k].Num)))
 //@   ensures[reorg-means-rewind-to-first-mismatch-then-drop] notifyCalls == 1 ==> (result == nil ==> lastDropFrom == lastNotified)
+//@   loop 0 invariant forall(n, int, headersCache[n] != nil ==> headersCache[n] == chainHdrAt(n))
+//@   loop 0 invariant 0 <= rangeindex + 1 && rangeindex + 1 <= len(headers) && forall(k, 0, rangeindex + 1, headers[k].Hash == hdrHashOf(chainHdrAt(headers[k].Num)))
 //@   loop 0 invariant notifyCalls == 0 && headersCache != nil && rd != nil && rd.client != nil && rd.log != nil && hdrs != nil && lastFinalisedBlock != nil && lastFinalisedBlock.Number != nil
 
 // the tracked blocks reloaded at start-up (C06): assumed semantics (A5), text pinned
